@@ -3382,8 +3382,9 @@ AUTHOR
 int32
 HMCPcloseAID(accrec_t *access_rec /* IN:  access record of file to close */)
 {
-    chunkinfo_t *info      = NULL; /* special information record */
-    int32        ret_value = SUCCEED;
+    chunkinfo_t *info        = NULL;  /* special information record */
+    int          sync_failed = FALSE; /* dirty chunks could not be written */
+    int32        ret_value   = SUCCEED;
 
     /* check args */
     info = (chunkinfo_t *)access_rec->special_info;
@@ -3394,8 +3395,9 @@ HMCPcloseAID(accrec_t *access_rec /* IN:  access record of file to close */)
        If no more references to that, free the record */
     if (--(info->attached) == 0) {
         if (info->chk_cache != NULL) {
-            /* Sync chunk cache */
-            mcache_sync(info->chk_cache);
+            /* Sync chunk cache; a failure is reported after the tear-down */
+            if (mcache_sync(info->chk_cache) == RET_ERROR)
+                sync_failed = TRUE;
 #ifdef STATISTICS
             /* cache statistics if 'mcache.c' complied with -DSTATISTICS */
             mcache_stat(info->chk_cache);
@@ -3432,6 +3434,9 @@ HMCPcloseAID(accrec_t *access_rec /* IN:  access record of file to close */)
         free(info);
         access_rec->special_info = NULL;
     } /* attached to info */
+
+    if (sync_failed)
+        HGOTO_ERROR(DFE_CANTFLUSH, FAIL);
 
 done:
     return ret_value;
